@@ -498,7 +498,9 @@ func vfE1SReident(n *NSQD, cb vfE1SCombo, idx int, r *vfRand) (key, what string)
 	// from here on an eavesdropper on the raw socket must not see protocol plaintext if anything
 	// was negotiated, and the client must receive everything through its stack
 	m0 := tap.mark()
-	sniff := func(needle []byte) bool { return upgraded && bytes.Contains(tap.since(m0), needle) }
+	// (only meaningful under TLS: snappy stores short / incompressible data as literals)
+	sniff := func(needle []byte) bool { return cb.tls && bytes.Contains(tap.since(m0), needle) }
+	_ = upgraded
 	okFrame := []byte{0, 0, 0, 6, 0, 0, 0, 0, 'O', 'K'}
 	for k := 0; k <= cb.again; k++ {
 		sz := cb.buf2
